@@ -165,7 +165,10 @@ func allSpecs() []*HarnessSpec {
 			Thorough: []Grid{{"pos": rng(0, 62)}},
 			Note:     "a symbolic pair of neighbours at position i of a 64-key list (equal / swapped / prefix / bytes >= 0x80 are all models of the pair)"},
 		{Name: "l3_api", Pkg: "trie", Property: "C08", Witness: 1,
-			Quick:    []Grid{{"skel": append([]int{0, 1, 2, 7, 11}, step(100, 150, 5)...), "opt": {16, 9, 0}, "enc": {1}, "runs": {0}, "check": {1}, "lq": {0}}},
+			Quick: []Grid{{"skel": append([]int{0, 1, 2, 7, 11}, step(100, 150, 5)...), "opt": {16, 9, 0}, "enc": {1}, "runs": {0}, "check": {1}, "lq": {0}},
+				// a returned trie keeps satisfying the guarantees while later builds run / after earlier ones
+				{"skel": {0, 2, 3, 105}, "opt": {16, 2}, "enc": {1}, "runs": {0}, "check": {1}, "lq": {0}, "other": {1, 2}},
+				{"skel": {0, 2, 105}, "opt": {16}, "enc": {1}, "runs": {0}, "check": {1}, "lq": {0}, "pre": {150}}},
 			Thorough: []Grid{{"skel": append([]int{0, 1, 2, 3, 4, 5, 6, 7, 8, 9, 10, 11}, step(100, 150, 1)...), "opt": optsDistinct, "enc": {1}, "runs": {0, 2}, "check": {1}, "lq": {0}}},
 			Note:     "accepted => correct: every key of an accepted skeleton key set is found (the C01 block on shapes with 257-bit nodes, short-node tables and their coincidences)"},
 		{Name: "l3_longrun", Pkg: "trie", Property: "C08", Witness: 1,
@@ -274,6 +277,10 @@ func apiSpecs() []*HarnessSpec {
 			q2 = append(q2, Grid{"n": {1, 2}, "L": {1}, "lens": rng(0, 3), "opt": {16, 9, 0}, "enc": {7}, "check": {p.check}, "lq": lq, "cv": {-1}})
 			t2 = append(t2, Grid{"n": {1, 2}, "L": {2}, "lens": rng(0, 8), "opt": p.small, "enc": {7}, "check": {p.check}, "lq": lq, "cv": {-1}})
 		}
+		if p.check == 14 {
+			// three keys, the wider integer encoders, every indexed key also used as the query
+			q2 = append(q2, Grid{"n": {3}, "L": {1}, "lens": {7}, "opt": {16, 0}, "enc": {4, 5, 6}, "check": {14}, "lq": {1}, "cv": {-1}, "allkeys": {1}})
+		}
 		out = append(out, &HarnessSpec{Name: "l2_api", Pkg: "trie", Property: p.prop, Witness: 1,
 			Quick:    q2,
 			Thorough: t2,
@@ -306,6 +313,16 @@ func apiSpecs() []*HarnessSpec {
 				Grid{"skel": {20}, "opt": so[:1], "enc": {2}, "runs": {0}, "check": {p.check}, "lq": lqS, "symv": {1}, "vl": {4}})
 			t3 = append(t3, Grid{"skel": {20, 21, 22}, "opt": p.small, "enc": {2}, "runs": {0}, "check": {p.check}, "lq": lqS, "symv": {1}, "vl": {2, 3}},
 				Grid{"skel": {20}, "opt": so, "enc": {2}, "runs": {0}, "check": {p.check}, "lq": lqS, "symv": {1}, "vl": {4, 5}})
+		}
+		if p.check == 14 {
+			// every indexed key as the query, all four integer widths: leaf byte counts that are
+			// not multiples of 8 (partial last word), 1..355 leaves
+			ak := l3Grid(14, append([]int{0, 1, 2, 4, 20, 21, 22}, step(100, 150, 7)...), []int{16, 0}, p.encs, []int{0, 2}, []int{0})
+			ak["allkeys"] = []int{1}
+			q3 = append(q3, ak)
+			akT := l3Grid(14, append(append([]int{0, 1, 2, 3, 4, 5, 6, 7, 20, 21, 22}, step(100, 150, 1)...), aligned...), p.small, p.encs, []int{0, 2, 3}, []int{0})
+			akT["allkeys"] = []int{1}
+			t3 = append(t3, akT)
 		}
 		// a second, unrelated trie is built while the first is alive
 		og := l3Grid(p.check, []int{0, 2, 105}, p.small[:1], enc3, []int{0}, lqS)
